@@ -497,6 +497,24 @@ def try_known(n):
             return {"k": "ret", "ty": "!", "sp": n.get("sp"), "e": inner, "from_try": True}
     if inner.get("k") == "def" and (inner.get("path") or "").endswith("::None"):
         return {"k": "ret", "ty": "!", "sp": n.get("sp"), "e": inner, "from_try": True}
+    if inner.get("k") == "mcall" and inner.get("callee") == "core::slice::<impl [T]>::get" and len(inner.get("args", [])) == 1 \
+            and inner["args"][0].get("ty") == "usize" and _is_pure(inner["recv"]) and _is_pure(inner["args"][0]) \
+            and str(inner.get("ty", "")).startswith("std::option::Option<&"):
+        # `s.get(i)?`  ==  `if s.len() <= i { return None }; &s[i]`   (get is None exactly for i >= len)
+        sp = n.get("sp")
+        recv, idx = inner["recv"], inner["args"][0]
+        ln = {"k": "mcall", "ty": "usize", "sp": sp, "name": "len", "callee": "core::slice::<impl [T]>::len",
+              "recv": copy.deepcopy(recv), "args": []}
+        cond = {"k": "bin", "op": "<=", "ty": "bool", "sp": sp, "l": ln, "r": copy.deepcopy(idx)}
+        none = {"k": "def", "ty": "std::option::Option<()>", "sp": sp, "dk": "Ctor(Variant, Const)", "path": "std::prelude::v1::None"}
+        guard = {"k": "if", "ty": "()", "sp": sp, "cond": cond, "from_get_try": True,
+                 "then": {"k": "block", "sp": sp, "ty": "!", "stmts": [{"k": "semi", "sp": sp, "ty": "()",
+                          "e": {"k": "ret", "ty": "!", "sp": sp, "e": none, "from_try": True}}], "expr": None},
+                 "else": None}
+        elem_ty = str(inner["ty"])[len("std::option::Option<&"):-1]
+        item = {"k": "addr", "ty": "&" + elem_ty, "sp": sp,
+                "e": {"k": "index", "ty": elem_ty, "sp": sp, "e": copy.deepcopy(recv), "i": copy.deepcopy(idx)}}
+        return {"k": "block", "ty": n.get("ty"), "sp": sp, "stmts": [{"k": "semi", "sp": sp, "ty": "()", "e": guard}], "expr": item}
     return None
 
 
